@@ -665,7 +665,8 @@ void mmd_export_token_html(DString * out, const char * source, token * t, scratc
 								temp_token = NULL;
 						}
 
-						if (temp_token) {
+						if (temp_token && temp_token != t->child) {
+							// (a fence that is the block's only line is not its own closing fence)
 							d_string_append_c_array(out, &source[t->child->next->start], temp_token->start - t->child->next->start);
 							scratch->padded = 1;
 						} else {
